@@ -154,6 +154,9 @@ type C18Case struct {
 	Probes  []string  `json:"probes"` // tags looked up with fix.ValueByTag
 	// EmptyValue: one populated String/Raw leaf is sent with an empty value, and a look-alike of its tag follows
 	EmptyValue bool `json:"empty_value,omitempty"`
+	// BadTyped (> 0): 1 + index (in wire order) of a typed leaf sent with the text 1x7 as its value; a foreign field
+	// further on quotes "tag=7" in its value (0: none)
+	BadTyped int `json:"bad_typed,omitempty"`
 }
 
 // affixVariants returns tags that have t as a proper decimal suffix or prefix
@@ -254,6 +257,31 @@ func genC18(t *rapid.T) *C18Case {
 			}
 		}
 	}
+	if !cc.EmptyValue && rapid.IntRange(0, 4).Draw(t, "badTyped") == 0 {
+		// a typed field arrives with a value that is not of its type, and a later value quotes "tag=7":
+		// the message does not parse (the quoted text is not a second chance)
+		var cand []int
+		for i, l := range leaves {
+			if l.Depth == 0 && l.V != nil && !l.First && (l.T == gen.TInt || l.T == gen.TUint || l.T == gen.TFloat || l.T == gen.TTime) {
+				cand = append(cand, i)
+			}
+		}
+		if len(cand) > 0 {
+			i := rapid.SampledFrom(cand).Draw(t, "badTypedLeaf")
+			tag := leaves[i].Tok.Tag
+			var later []int
+			for _, a := range allowed {
+				if a > i {
+					later = append(later, a)
+				}
+			}
+			ftag := "99" + tag + "9"
+			if len(later) > 0 && !inTpl[ftag] {
+				cc.BadTyped = i + 1
+				cc.Foreign = append(cc.Foreign, Foreign{Pos: rapid.SampledFrom(later).Draw(t, "quotePos"), Tag: ftag, Val: []byte("see " + tag + "=7"), Rel: "template-tag-is-prefix"})
+			}
+		}
+	}
 	sort.SliceStable(cc.Foreign, func(i, j int) bool { return cc.Foreign[i].Pos < cc.Foreign[j].Pos })
 	// probes: every template tag plus affix variants of some
 	cc.Probes = append(cc.Probes, tags...)
@@ -283,7 +311,11 @@ func assembleC18(cc *C18Case) []byte {
 			fi++
 		}
 		if i < len(leaves) {
-			toks = append(toks, leaves[i].Tok)
+			tok := leaves[i].Tok
+			if i == cc.BadTyped-1 {
+				tok.Val = "1x7"
+			}
+			toks = append(toks, tok)
 		}
 	}
 	return ref.Assemble(cc.Tpl.Tags, cc.Tpl.Begin, cc.Tpl.MsgType, toks)
@@ -332,6 +364,23 @@ func checkC18(cc *C18Case, rec *evid.Rec) (vs []pbt.Violation) {
 		if len(vs) > 0 {
 			break
 		}
+	}
+	if cc.BadTyped > 0 {
+		// (b') the message does not parse, whatever else it quotes
+		rec.Hist("unparsable-typed-field-with-a-quote-of-its-tag-behind-it")
+		for _, md := range modes {
+			e, err := build.Empty(&cc.Tpl)
+			if err != nil {
+				return []pbt.Violation{pbt.V("build", "%v", err)}
+			}
+			perr, pan := parse(md.strict, e, msg)
+			if pan == nil && perr == nil {
+				vs = append(vs, pbt.V("unmarshal:unparsable-field-accepted", "%s parser accepts a message whose typed field has the value 1x7 (a later value quotes the tag): %s", md.name, ref.Show(msg)))
+				break
+			}
+		}
+		rec.Case(evid.FP(msg), true)
+		return vs
 	}
 	// (b) parsing is unaffected by decoys and foreign fields
 	for _, v := range parseAndCompare(&cc.Case, msg, false) {
